@@ -44,6 +44,10 @@ pub enum Mode {
   Schedule(Vec<u8>),
   /// every schedule with at most this many preemptions, at most `cap` executions
   Exhaustive { max_preemptions: u32, cap: u32 },
+  /// no scheduler: the threads really run in parallel, released together by a barrier, `rounds`
+  /// times on a fresh tree each time.  Reaches windows that have no schedule point (code that
+  /// bypasses the instrumented accesses); a failure is a real failure, silence proves little.
+  Stress { rounds: u32 },
 }
 
 #[derive(Clone, Debug, Serialize, Deserialize)]
@@ -136,6 +140,54 @@ pub fn random_case() -> BoxedStrategy<Case> {
     Case { program, mode: Mode::Schedule(schedule) }
   })
   .boxed()
+}
+
+fn stress_case() -> BoxedStrategy<Case> {
+  program().prop_map(|program| Case { program, mode: Mode::Stress { rounds: 25 } }).boxed()
+}
+
+/// Run the program once with really parallel threads (no hooks), released by a barrier.
+fn execute_parallel(p: &Program) -> Vec<Vec<Answer>> {
+  let n = p.threads.len();
+  let tree: BoxSource = build(&p.tree);
+  let text = Arc::new(model_text(&p.tree));
+  let answers: Arc<Mutex<Vec<Vec<Answer>>>> = Arc::new(Mutex::new(vec![vec![]; n]));
+  let barrier = Arc::new(std::sync::Barrier::new(n));
+  let (done_tx, done_rx) = std::sync::mpsc::channel::<usize>();
+  POOL.with(|pool| {
+    let mut pool = pool.borrow_mut();
+    if pool.is_none() {
+      *pool = Some(Pool::new(3));
+    }
+    let pool = pool.as_ref().unwrap();
+    for (tid, ops) in p.threads.iter().enumerate() {
+      let (tree, text, answers, ops, spec, done_tx, barrier) =
+        (tree.clone(), text.clone(), answers.clone(), ops.clone(), p.tree.clone(), done_tx.clone(), barrier.clone());
+      let job: Job = Box::new(move || {
+        let mut keep: Vec<Retained> = vec![];
+        barrier.wait();
+        let mut mine = vec![];
+        for op in ops {
+          mine.push(run_op(&tree, &spec, &text, op, &mut keep));
+        }
+        for k in &keep {
+          if let Err(e) = k.verify() {
+            mine.push(Answer::Panic(e));
+          }
+        }
+        answers.lock().unwrap()[tid] = mine;
+        drop(keep);
+        drop(tree);
+        let _ = done_tx.send(tid);
+      });
+      pool.workers[tid].send(job).expect("worker pool");
+    }
+  });
+  for _ in 0..n {
+    let _ = done_rx.recv();
+  }
+  let out = answers.lock().unwrap().clone();
+  out
 }
 
 fn exhaustive_case() -> BoxedStrategy<Case> {
@@ -243,6 +295,18 @@ fn run_op<'a>(tree: &'a BoxSource, spec: &Spec, text: &str, op: Op, keep: &mut V
     Op::EqTwin => Answer::Eq(**tree == *build(spec)),
   });
   r.unwrap_or_else(Answer::Panic)
+}
+
+/// A CachedSource beneath a ReplaceSource warms up during the run: its replay coarsens chunks and
+/// the ReplaceSource above cuts by chunk, so the tree itself attributes differently (at column
+/// level, sometimes at line level) before and after -- single-threaded too (DESIGN.md 1.5 rule 1).
+/// For such trees only text, end information, size, hash and equality are compared.
+fn coarse(a: &Answer) -> Answer {
+  match a {
+    Answer::MapAttr(_) => Answer::MapAttr(vec![]),
+    Answer::Stream(t, i, _, _) => Answer::Stream(t.clone(), *i, vec![], BTreeMap::new()),
+    other => other.clone(),
+  }
 }
 
 /// the same operation on a fresh twin, single-threaded, no scheduler
@@ -420,8 +484,11 @@ fn judge(p: &Program, want: &[Vec<Answer>], out: &RunOut, schedule: &[u8]) -> Re
   }
   for (t, ops) in p.threads.iter().enumerate() {
     for (k, op) in ops.iter().enumerate() {
-      let got = out.answers[t].get(k);
-      let w = &want[t][k];
+      let cu = p.tree.cached_under_replace();
+      let got_c = out.answers[t].get(k).map(|a| if cu { coarse(a) } else { a.clone() });
+      let got = got_c.as_ref();
+      let w_c = if cu { coarse(&want[t][k]) } else { want[t][k].clone() };
+      let w = &w_c;
       if got != Some(w) {
         let show = |a: Option<&Answer>| match a {
           Some(Answer::MapAttr(v)) => format!("map attributing {:?}", v.iter().flatten().next()),
@@ -451,6 +518,8 @@ impl Prop for C18 {
      schedule: a choice at every decision point (guarded library schedule points + operation boundaries), real threads run \
      strictly one at a time under a harness-owned scheduler with lock modelling. Leg 1: random (mostly sparse) schedules. \
      Leg 2: for each generated program EVERY schedule with <=2 preemptions (depth-first, stateless re-execution, capped). \
+     Leg 3: the same programs with really parallel, barrier-released threads and no scheduler (reaches code that bypasses \
+     the instrumented accesses; not counted as non-trivial). \
      Oracle: each answer equals the same operation on a fresh twin run single-threaded; no deadlock; a cached map is never \
      replaced (hook at the store, and identity of the instance every map() call hands out); borrowed chunks/names/contents are re-read after all threads finished. Non-trivial: a schedule with >=1 context \
      switch inside a library window (between two schedule points of one call); distinct by hash of the case JSON".into()
@@ -459,10 +528,20 @@ impl Prop for C18 {
     vec![
       Leg { name: "random schedules", source: Cases::Generated(Box::new(random_case), 30_000, 400_000) },
       Leg { name: "all schedules with <=2 preemptions per program", source: Cases::Generated(Box::new(exhaustive_case), 96, 1600) },
+      Leg { name: "really parallel threads, barrier-released, 25 rounds per program (unscheduled stress)", source: Cases::Generated(Box::new(stress_case), 2_000, 40_000) },
     ]
   }
   fn floor(&self, tier: Tier) -> u64 {
     tier.pick(200, 2000)
+  }
+  fn stages(&self, ctx: &Ctx) -> Vec<Stage> {
+    if ctx.tier == Tier::Thorough {
+      // the same executions under AddressSanitizer: a replaced / freed cached map that a replay
+      // handed out borrows into shows as a use-after-free when the borrows are re-read
+      crate::fuzz::campaigns("C18", &["sched_prog"], ctx)
+    } else {
+      vec![]
+    }
   }
   fn extra_coverage(&self, _tier: Tier) -> BTreeMap<String, serde_json::Value> {
     let (runs, capped, points) = (
@@ -502,6 +581,26 @@ impl Prop for C18 {
             .class(p.tree.any(&|s| matches!(s, Spec::Custom { .. })), "tree with user-defined child")
             .class(p.threads.len() == 3, "3 threads"),
         )
+      }
+      Mode::Stress { rounds } => {
+        for round in 0..*rounds {
+          let got = execute_parallel(p);
+          for (t, ops) in p.threads.iter().enumerate() {
+            for (k, op) in ops.iter().enumerate() {
+              let cu = p.tree.cached_under_replace();
+              let g = got[t].get(k).map(|a| if cu { coarse(a) } else { a.clone() });
+              let w = if cu { coarse(&want[t][k]) } else { want[t][k].clone() };
+              if g != Some(w) || got[t].len() != ops.len() {
+                let bad = got[t].iter().find(|a| matches!(a, Answer::Panic(_)));
+                return Err(format!(
+                  "really parallel run #{round}: thread {t} op #{k} {op:?} did not answer as single-threaded ({}); this leg is not deterministic: re-run the case several times",
+                  match bad { Some(Answer::Panic(m)) => m.clone(), _ => "different answer".into() }
+                ));
+              }
+            }
+          }
+        }
+        Ok(CaseInfo::default().class(true, "program run with really parallel threads").class(p.tree.any(&|s| matches!(s, Spec::RawBuf(_) | Spec::RawBytes(_))), "stress: tree with a lazily decoded buffer leaf"))
       }
       Mode::Exhaustive { max_preemptions, cap } => {
         let mut schedule: Vec<u8> = vec![];
